@@ -124,6 +124,7 @@ def run(repo, rep, tier):
                   'tomof()')
     obj = repo.module(OBJ)
     mof = repo.module(MOF)
+    _r7_instance_values(repo, rep)
     # ---- R6 ---------------------------------------------------------------
     for cname in MOF_CLASSES:
         cls = repo.cls(OBJ, cname)
@@ -416,3 +417,62 @@ def run(repo, rep, tier):
             rep.finding(r5, 'moftype', t, 'type-keyword', OBJ, 0,
                         'data type %s written by tomof() is not a dataType '
                         'alternative of the compiler' % t)
+
+
+def _r7_instance_values(repo, rep):
+    """C08.R7: in the grammar action that builds an instance, an element that
+    starts as a copy of the class declaration's element (and therefore holds
+    the class default) is stored into the instance only after its value was
+    assigned from the instance MOF - on every path, including the NULL
+    initializer.  Otherwise `P = NULL;` (which tomof() writes for every
+    NULL property) recompiles to the class default."""
+    from ..cfg import CFG
+    r7 = rep.rule('C08.R7', 'instance property values come from the instance '
+                  'MOF, never from the class default')
+    f = repo.func(MOF, 'p_instanceDeclaration')
+    r7.functions.add(f.fq)
+    cfg = CFG(f.node)
+    copies = {}
+    for st in cfg.stmts():
+        if isinstance(st, ast.Assign) and len(st.targets) == 1 and \
+                isinstance(st.targets[0], ast.Name) and \
+                isinstance(st.value, ast.Call) and \
+                isinstance(st.value.func, ast.Attribute) and \
+                st.value.func.attr == 'copy':
+            copies[st.targets[0].id] = st
+    stores = []
+    for st in cfg.stmts():
+        if isinstance(st, ast.Assign) and len(st.targets) == 1 and \
+                isinstance(st.targets[0], ast.Subscript) and \
+                norm(st.targets[0].value).endswith('.properties') and \
+                isinstance(st.value, ast.Name) and st.value.id in copies:
+            stores.append(st)
+    if not stores:
+        raise AnalysisError('p_instanceDeclaration: the statement storing a '
+                            'copied class property into the instance was not '
+                            'found')
+    for st in stores:
+        var = st.value.id
+        r7.sites += 1
+
+        def sets_value(n, var=var):
+            return isinstance(n, ast.Assign) and any(
+                isinstance(t, ast.Attribute) and t.attr == 'value' and
+                isinstance(t.value, ast.Name) and t.value.id == var
+                for t in n.targets)
+        wit = cfg.path_avoiding(copies[var], st, sets_value)
+        ok = wit is None
+        r7.ob(ok, var, {'copied_from_class': norm(copies[var]),
+                        'stored': norm(st), 'value_assigned_on_every_path':
+                        ok})
+        if not ok:
+            conds = [norm(n.test, 50) for n in wit if isinstance(n, ast.If)]
+            rep.finding(r7, f.qualname, '%s.value' % var, 'default-kept',
+                        MOF, st.lineno,
+                        'there is a path from %s to %s on which %s.value is '
+                        'not assigned (through: %s): an instance property '
+                        'given as NULL keeps the default value of the class '
+                        'declaration, so the MOF written by tomof() does not '
+                        'recompile to the same instance'
+                        % (norm(copies[var]), norm(st), var,
+                           ' / '.join(conds[-3:]) or 'straight line'))
